@@ -14,7 +14,7 @@ MODULE = "Model.GroupObs"
 TIED = ["C17_never_idle", "C17_never_idle_flag", "C17_stable_means_heartbeating", "C17_rejoin_timer_real", "C17_retriable_rejoins", "C17_timer_starts_join", "C17_any_timer_starts_join", "C17_join_failure_is_rejoin_after_error",
         "C17_sync_failure_is_rejoin_after_error", "C17_metadata_failure_is_rejoin_after_error", "C17_partition_lookup_failure_is_rejoin_after_error",
         "C17_heartbeat_failure_is_rejoin_after_error",
-        "C17_lookup_failure_retried", "C17_coordinator_forgotten", "C17_fatal_surfaces", "C17_fatal_surfaces_after_leave"]
+        "C17_lookup_failure_retried", "C17_coordinator_forgotten", "C17_settles_partial", "C17_owed_event_progress", "C17_fatal_surfaces", "C17_fatal_surfaces_after_leave"]
 
 
 # ------------------------------------------------------------------ monitors (theorem statements over the implementation's own run)
@@ -119,6 +119,7 @@ def run(ck):
     ck.props()
     thorough = ck.tier == "thorough"
     run_case = GL.check_histories(ck, monitor, TIED)
+    GL.run_sync_stream(ck, 4000 if ck.tier == "thorough" else 250)
 
     # ---- residual finding F-C17-2: replay the witness of C17_nonkafka_idle_refuted on the real code
     wk, wev, _ = GL.corpus_cases()[0]
